@@ -184,7 +184,7 @@ def build_inputs(case, d):
             symgen.build_obj(spec_for(mem, fid), f"{fid}.o", d)
             names.append(f"{fid}.o")
         if ar["form"] in ("ar", "thin"):
-            tools.ar(f"lib{a}.a", names, cwd=d, thin=ar["form"] == "thin")
+            symgen.ar(f"lib{a}.a", names, cwd=d, thin=ar["form"] == "thin")
     return no
 
 
